@@ -57,6 +57,12 @@ class C04(Prop):
             cs.append({"name": "crlf-B%d" % B, "sticky": 1, "ops": ["file ext=fa hex=" + hx(g), "open fmt=fasta abc=text B=%d" % B] + ["read"] * 4 + ["close",
                        "open fmt=fasta abc=dna B=%d" % B, "readwin C=1 W=2", "readwin C=1 W=2", "readwin C=1 W=2", "readwin C=1 W=2", "readwin C=1 W=-4", "readwin C=1 W=-4", "readwin C=1 W=-4",
                        "reuse", "readwin C=1 W=2", "reuse", "readwin C=0 W=100", "readwin C=0 W=100", "roundtrip"]})
+        # every block size 1..len+1 on the CRLF file (block boundary at every byte: inside '>', the header, between CR and LF, in blank lines):
+        # exact comparison with the model + the offsets monitor (roff/hoff/doff/eoff are the true byte positions) + cross-B agreement
+        ops = ["file ext=fa hex=" + hx(g)]
+        for B in range(1, len(g) + 2):
+            ops += ["open fmt=fasta abc=%s B=%d" % ("text" if B % 2 else "dna", B)] + [("read", "readinfo", "readseq")[B % 3]] * 4 + ["close"]
+        cs.append({"name": "crlf-every-B", "sticky": 1, "ops": ops})
         # regression: ReadSequence on a file whose last record is empty (repaired by b245751 "skip_fasta empty last record")
         for nm, f in (("nl", b">a\nAC\n>b desc\n"), ("nonl", b">a\nAC\n>b"), ("only", b">chr23 alpha >\n"), ("blank", b">\tacaaYY x >\n\n")):
             cs.append({"name": "skipfasta-empty-last-" + nm, "sticky": 1, "ops": ["file ext=fa hex=" + hx(f), "open fmt=fasta abc=text B=3", "read", "read", "read", "close",
@@ -102,7 +108,7 @@ class C04(Prop):
                 total = sum(lens)
                 ops = ["file ext=fa hex=" + hx(data), "open fmt=fasta abc=%s B=4096" % kind] + ["read"] * (len(lens) + 1) + ["close"]
                 for s_ in range(rng.choice([1, 2])):
-                    ops.append("open fmt=fasta abc=%s B=%d" % (kind, rng.choice(S.BSIZES)))
+                    ops.append("open fmt=fasta abc=%s B=%d" % (kind, S.pick_B(rng, data, small_ok=len(data) <= 6000)))
                     ncalls = min(400, total // max(1, mr // 20 if not ini else mr) + 2 * len(lens) + 4)
                     ops += ["readblock list=%d maxres=%d maxseq=%d init=%d long=1 ctx=%d" % (rng.choice([1, 2, 3, 8]), mr, rng.choice([-1, -1, 1, 2]), ini, ctxv)] * ncalls
                     ops.append("close")
@@ -114,10 +120,10 @@ class C04(Prop):
                 kind = rng.choice(["dna", "dna", "rna"])
                 data, meta = S.gen_fasta_layout(rng, kind)
                 r = meta["width"]
-                ops = ["file ext=fa hex=" + hx(data), "open fmt=fasta abc=text B=%d" % rng.choice(S.BSIZES)] + ["read"] * (len(meta["recs"]) + 1) + ["close"]
+                ops = ["file ext=fa hex=" + hx(data), "open fmt=fasta abc=text B=%d" % S.pick_B(rng, data)] + ["read"] * (len(meta["recs"]) + 1) + ["close"]
                 for s in range(rng.choice([1, 2])):
                     abc = rng.choice(["text", kind])
-                    ops.append("open fmt=fasta abc=%s B=%d" % (abc, rng.choice(S.BSIZES + [rng.randrange(1, 40)])))
+                    ops.append("open fmt=fasta abc=%s B=%d" % (abc, S.pick_B(rng, data)))
                     for rc in meta["recs"]:
                         L = len(rc["seq"])
                         Wf = rng.choice([1, 2, r - 1 if r > 1 else 1, r, r + 1, r + 2, 2 * r + 1, L, 5000, rng.randrange(1, r + 3)])
@@ -160,14 +166,12 @@ class C04(Prop):
                     call = rng.choice(["read", "readinfo", "readseq", "win"])
                     abc2 = rng.choice(["text", kind])
                     ops.append("srcscan src=%s fmt=%s abc=%s B=%d call=%s C=%d W=%d" % (
-                        rng.choice(["gzip", "stdin"]), fmt if (rng.random() < 0.6 or fmt in ("daemon", "hmmpgmd")) else "unknown", abc2, rng.choice(S.BSIZES) if fmt != "daemon" else 4096, call,
+                        rng.choice(["gzip", "stdin"]), fmt if (rng.random() < 0.6 or fmt in ("daemon", "hmmpgmd")) else "unknown", abc2, S.pick_B(rng, data, small_ok=len(data) <= 4000) if fmt != "daemon" else 4096, call,
                         rng.choice([0, 2, 10]), rng.choice([1, 7, 60, 5000])))
             nsess = rng.choice([2, 3, 4])
             for s in range(nsess):
                 abc = rng.choice(["text", "text", kind])
-                B = rng.choice(S.BSIZES + [rng.randrange(1, 40)])
-                if sum(len(r["seq"]) for r in meta["recs"]) > 4000 and B < 7:
-                    B = rng.choice([7, 64, 4096])
+                B = S.pick_B(rng, data, small_ok=sum(len(r["seq"]) for r in meta["recs"]) <= 4000)
                 if fmt == "daemon":
                     B = 4096
                 ops.append("open fmt=%s abc=%s B=%d" % (fmt if (rng.random() < 0.8 or fmt in ("daemon", "hmmpgmd")) else "unknown", abc, B))
